@@ -126,10 +126,12 @@ def run(chk, replay=None):
         quant = {'scalar': [0.25, numpy.float64(0.5), 0.0][k % 3], 'pair': [(0.1, numpy.float64(0.95)), (0.0, 1.0)][k % 2], 'pair_none': (None, None), 'pair_invalid': (-1, -1)}[c['quant']]
         dist = {'list': [[1.5, numpy.float64(-2.25), -math.inf, 3], [0.0, 0, 1.0]][k % 2], 'array': numpy.array([0.5, 1.0, float('nan')]), 'empty': [] if k % 2 else numpy.array([]),
                 'law': ('poisson', 12.5), 'word': 'normal'}[c['dist']]
-        names = {'str': 'forecast-a', 'pair': ('forecast-a', 'forecast-b'), 'none': None}[c['names']]
+        # names are text whatever they look like: a forecast called '2019', a catalog called '1992', 'nan', '1e5' ...
+        numlike = ['2019', '7', 'nan', 'inf', '1e5', '007', '-3.5', 'forecast-a']
+        names = {'str': numlike[k % len(numlike)], 'pair': (numlike[k % len(numlike)], 'forecast-b'), 'none': None}[c['names']]
         cls = getattr(models, c['cls'])
-        return cls(test_distribution=dist, name='T-%d' % k, observed_statistic=stat, quantile=quant, status=['normal', 'not-valid', 'undersampled'][k % 3],
-                   sim_name=names, obs_name='obs', min_mw=[4.95, numpy.float64(5.95), None, 0.0, numpy.float64(0.0), -1][k % 6], obs_catalog_repr='repr')
+        return cls(test_distribution=dist, name=('T-%d' % k if k % 7 else str(k)), observed_statistic=stat, quantile=quant, status=['normal', 'not-valid', 'undersampled'][k % 3],
+                   sim_name=names, obs_name=['obs', '1992', 'None', 'true'][k % 4], min_mw=[4.95, numpy.float64(5.95), None, 0.0, numpy.float64(0.0), -1][k % 6], obs_catalog_repr='repr')
 
     traces, metas = [], []
 
